@@ -415,6 +415,7 @@ struct GenOpts {
   int maxStr = 40;        // typical upper bound of generated strings
   bool allowRaw = false;  // raw values (JSON fragments)
   bool allowBin = false;  // raw values holding MessagePack bin/ext objects
+  bool extremeDoubles = false;  // doubles over the whole exponent range (MessagePack contexts only)
   bool malformedBin = false;  // ... and, now and then, bytes that only look like one (API histories only)
   bool binEdges = false;  // bin/ext payloads of 254..257 bytes too (8/16-bit length headers)
   bool allowNonFinite = true;
@@ -477,7 +478,14 @@ inline int64_t genInt(Rng& r) {
   return int64_t(r.next());
 }
 
-inline double genDouble(Rng& r, bool nonFinite) {
+inline double genDouble(Rng& r, bool nonFinite, bool extreme = false) {
+  if (extreme && r.chance(1, 6)) {
+    // short mantissas over the whole exponent range of a double (beyond float's on both sides, subnormals
+    // included): binary formats carry them exactly
+    static const double ms[] = {1.0, 1.5, 1.25, 1.75, 1.0 + 1.0 / (1 << 23), 1.0 + 1.0 / (1 << 24)};
+    double x = ldexp(ms[r.below(6)], int(r.range(-1074, 1023)));
+    return r.chance(1, 2) ? x : -x;
+  }
   unsigned sel = unsigned(r.below(100));
   if (sel < 30) {
     static const double nice[] = {0.5, 1.5, -2.25, 3.14159, 0.1, 1e-3, 1e10, 123456.789, -0.0, 2.5e-10, 1e20, 6.02e23};
@@ -513,8 +521,8 @@ inline Val genScalar(Rng& r, const GenOpts& o) {
   if (sel < 46)
     return Val::uinteger(r.chance(1, 2) ? r.next() : (0xFFFFFFFFFFFFFFFFull - r.below(3)));
   if (sel < 60) {
-    double d = genDouble(r, o.allowNonFinite);
-    if (r.chance(1, 3))
+    double d = genDouble(r, o.allowNonFinite, o.extremeDoubles);
+    if (r.chance(1, 3) && !(o.extremeDoubles && (fabs(d) > 3e38 || (d != 0 && fabs(d) < 2e-38))))
       return Val::flt(float(d));
     return Val::dbl(d, o.allowDouble);
   }
